@@ -78,7 +78,7 @@ func classesOf(kind string) []string {
 	case "bool":
 		return []string{"false", "true"}
 	case "bytes":
-		return []string{"empty", "zero1", "nul4", "msgpack", "big", "rand"}
+		return []string{"empty", "zero1", "nul4", "msgpack", "big", "rand", "msgpack2"}
 	case "uint32slice":
 		return []string{"empty", "zero", "many", "rand"}
 	case "void":
@@ -165,6 +165,10 @@ func floatVal(kind, class string, bits uint64) float64 {
 
 var msgpackDoc = []byte{0x83, 0xa1, 'a', 0x01, 0xa1, 'n', 0x00, 0xa1, 'l', 0x90} // {"a":1,"n":0,"l":[]}
 
+// msgpackDoc2 = {"a":1,"n":0,"b":true,"s":"abc","i":int64(5),"f":float64(0.5),"u":uint8(16),"l":[]}
+var msgpackDoc2 = []byte{0x88, 0xa1, 'a', 0x01, 0xa1, 'n', 0x00, 0xa1, 'b', 0xc3, 0xa1, 's', 0xa3, 'a', 'b', 'c',
+	0xa1, 'i', 0xd3, 0, 0, 0, 0, 0, 0, 0, 5, 0xa1, 'f', 0xcb, 0x3f, 0xe0, 0, 0, 0, 0, 0, 0, 0xa1, 'u', 0xcc, 0x10, 0xa1, 'l', 0x90}
+
 func stringVal(class string, bits uint64) string {
 	switch class {
 	case "empty":
@@ -191,6 +195,8 @@ func bytesVal(class string, bits uint64) []byte {
 		return []byte{0, 0, 0, 0}
 	case "msgpack":
 		return append([]byte{0xC7, 0x00}, msgpackDoc...)
+	case "msgpack2":
+		return append([]byte{0xC7, 0x00}, msgpackDoc2...)
 	case "big":
 		b := make([]byte, 20000)
 		for i := range b {
@@ -323,7 +329,7 @@ func patchMeta(m *metaSpec, clear bool) *hydrapb.PatchMeta {
 	}
 }
 
-var patchInitials = [][]byte{nil, {0x80}, msgpackDoc, {0xc1}}
+var patchInitials = [][]byte{nil, {0x80}, msgpackDoc, {0xc1}, msgpackDoc2}
 
 var patchOps = []*hydrapb.PatchOp{
 	{Op: hydrapb.PatchOp_SET, Path: "a", Value: []byte{0x00}},
@@ -341,7 +347,20 @@ var patchOps = []*hydrapb.PatchOp{
 	{Op: hydrapb.PatchOp_MERGE, Path: "deep", Value: []byte{0x81, 0xa1, 'm', 0x00}},
 	{Op: hydrapb.PatchOp_SET, Path: "a", Value: []byte{0xc4, 0x00}},
 	{Op: hydrapb.PatchOp_DELETE, Path: "n"},
+	// 15..: changes that keep the encoded length of msgpackDoc2 (and mostly of msgpackDoc)
+	{Op: hydrapb.PatchOp_SET, Path: "b", Value: []byte{0xc2}},
+	{Op: hydrapb.PatchOp_SET, Path: "s", Value: []byte{0xa3, 'x', 'y', 'z'}},
+	{Op: hydrapb.PatchOp_INC, Path: "i", Value: []byte{0xd3, 0, 0, 0, 0, 0, 0, 0, 1}},
+	{Op: hydrapb.PatchOp_SET, Path: "i", Value: []byte{0xd3, 0x7f, 0xff, 0xff, 0xff, 0xff, 0xff, 0xff, 0xff}},
+	{Op: hydrapb.PatchOp_SET, Path: "f", Value: []byte{0xcb, 0x3f, 0xf8, 0, 0, 0, 0, 0, 0}},
+	{Op: hydrapb.PatchOp_INC, Path: "f", Value: []byte{0xcb, 0x3f, 0xf0, 0, 0, 0, 0, 0, 0}},
+	{Op: hydrapb.PatchOp_SET, Path: "u", Value: []byte{0xcc, 0x7f}},
+	{Op: hydrapb.PatchOp_INC, Path: "u", Value: []byte{0x01}},
+	{Op: hydrapb.PatchOp_SET, Path: "a", Value: []byte{0x02}},
+	{Op: hydrapb.PatchOp_SET, Path: "b", Value: []byte{0xc3}},
 }
+
+const firstSameSizeOp = 15
 
 // ---------------------------------------------------------------------------
 // Generation
@@ -451,6 +470,9 @@ func genCase(r *rand.Rand, idx int) caseSpec {
 				Meta: genMeta(r, 50), Meta2: genMeta(r, 50), Cond: []int{0, 0, 0, 1, 2}[r.IntN(5)]})
 		case x < 72:
 			p := &patchSpec{Create: r.IntN(4) != 0, Initial: r.IntN(len(patchInitials)), ReqMeta: genMeta(r, 40), KeyMeta: genMeta(r, 25), Clear: r.IntN(6) == 0}
+			if r.IntN(3) == 0 { // a bare patch: no metadata stamping in the call
+				p.ReqMeta, p.KeyMeta, p.Clear = nil, nil, false
+			}
 			if p.Initial == 3 && r.IntN(3) != 0 {
 				p.Initial = 0
 			}
@@ -478,6 +500,10 @@ func genCase(r *rand.Rand, idx int) caseSpec {
 			cs.Steps = append(cs.Steps, step{Op: "del", Keys: ks})
 		default:
 			// pauses: shorter than a write tick, longer than one, or long enough for an eviction + reload mid-history
+			if r.IntN(5) == 0 {
+				cs.Steps = append(cs.Steps, step{Op: "flush"})
+				continue
+			}
 			ms := []int{300, 1100, 2500, int(cs.IdleSec+4) * 1000}[r.IntN(4)]
 			cs.Steps = append(cs.Steps, step{Op: "sleep", Ms: ms})
 		}
@@ -780,6 +806,82 @@ func metaOnlyCases() []caseSpec {
 					cs.Steps = append(cs.Steps, step{Op: "sleep", Ms: 1500}) // flushed by the write tick
 				}
 				cs.Steps = append(cs.Steps, last...)
+				out = append(out, cs)
+			}
+		}
+	}
+	return out
+}
+
+// ---------------------------------------------------------------------------
+// Same-size last changes: the final request on a key changes the value without changing its
+// encoded size, on a record whose previous state has already reached the file — by immediate
+// mode, by a write tick, by an explicit flush (swamp.WriteTreasuresToFilesystem) or by an
+// eviction and reload. Routes: PatchTreasures ops without Meta, Set, Increment*.
+
+func sameSizeCases() []caseSpec {
+	var out []caseSpec
+	for _, ws := range []int64{1, 0} {
+		for ci, cl := range []string{"idle", "restart"} {
+			for mi, mode := range []string{"tick", "flush", "reload"} {
+				cs := caseSpec{Name: fmt.Sprintf("samesize-w%d-%s-%s", ws, cl, mode), WriteSec: ws, IdleSec: 3, Close: cl,
+					Swamp: fmt.Sprintf("c05/z%d/%s%s", ws, cl, mode)}
+				var base, last []step
+				// PatchTreasures: single ops and pairs, on a record created by Set and on one created by a patch
+				add := func(name string, ops []int) {
+					k1, k2 := "patchS:"+name, "patchP:"+name
+					base = append(base,
+						step{Op: "set", Key: k1, Kind: "bytes", Class: "msgpack2", Create: true, Overwrite: true},
+						step{Op: "patch", Key: k2, Patch: &patchSpec{Create: true, Initial: 4}})
+					last = append(last, step{Op: "patch", Key: k1, Patch: &patchSpec{Ops: ops}}, step{Op: "patch", Key: k2, Patch: &patchSpec{Ops: ops}})
+				}
+				for i := firstSameSizeOp; i < len(patchOps)-1; i++ {
+					add(fmt.Sprint(i), []int{i})
+				}
+				add("n+1", []int{6})
+				add("b+s", []int{15, 16})
+				add("flip-twice", []int{15, 24, 15})
+				add("i+f+u", []int{17, 20, 22})
+				// Set with a value of the same size
+				for i, kind := range []string{"string", "bytes", "int8", "int16", "int32", "int64", "uint8", "uint16", "uint32", "uint64", "float32", "float64"} {
+					k := "set:" + kind
+					b := uint64(0x1010 + 16*i)
+					if kind == "int8" || kind == "uint8" {
+						b = uint64(0x11 + i)
+					}
+					if strings.HasPrefix(kind, "float") {
+						b = math.Float64bits(1.25 + float64(i))
+						if kind == "float32" {
+							b = uint64(math.Float32bits(1.25 + float32(i)))
+						}
+					}
+					base = append(base, step{Op: "set", Key: k, Kind: kind, Class: "rand", Bits: b, Create: true, Overwrite: true})
+					last = append(last, step{Op: "set", Key: k, Kind: kind, Class: "rand", Bits: b + 1, Create: true, Overwrite: true})
+				}
+				base = append(base, step{Op: "set", Key: "set:bool", Kind: "bool", Class: "false", Create: true, Overwrite: true})
+				last = append(last, step{Op: "set", Key: "set:bool", Kind: "bool", Class: "true", Create: true, Overwrite: true})
+				// Increment* by one
+				for _, kind := range numericKinds {
+					k := "inc:" + kind
+					base = append(base, step{Op: "set", Key: k, Kind: kind, Class: "one", Create: true, Overwrite: true})
+					last = append(last, step{Op: "inc", Key: k, Kind: kind, Class: "one"})
+				}
+				// Uint32Slice: replace one element (push one, the size grows; kept for completeness of the routes)
+				base = append(base, step{Op: "push", Key: "slice", Vals: []uint32{1, 2, 3}})
+				last = append(last, step{Op: "push", Key: "slice", Vals: []uint32{4}})
+				cs.Steps = append(cs.Steps, base...)
+				switch mode {
+				case "tick":
+					cs.Steps = append(cs.Steps, step{Op: "sleep", Ms: 1500})
+				case "flush":
+					cs.Steps = append(cs.Steps, step{Op: "flush"})
+				default:
+					cs.Steps = append(cs.Steps, step{Op: "sleep", Ms: int(cs.IdleSec+4) * 1000})
+				}
+				cs.Steps = append(cs.Steps, last...)
+				if (ci+mi)%2 == 1 {
+					cs.SettleMs = 1500
+				}
 				out = append(out, cs)
 			}
 		}
